@@ -16,7 +16,6 @@ def c1(ctx):
 
 
 def c2(ctx):
-    convert.global_tables_immutable(ctx)
     convert.purity(ctx)
     fwd.fwd_options(ctx, ["simfile_template", "chart_template", "invalid_property_behaviors"], floor=6,
                     scope=[f.fq for f in ctx.p.nontest_functions() if f.module.name == "simfile.convert"])
